@@ -29,7 +29,7 @@ dynamic child spaces, recursively) of every kept valid handle and of every insta
 same member of the same instance of a fresh model of the current definitions; a kept handle may instead raise the
 deleted-object error; a valid kept handle must be the very object the repeated request returns.
 
-Known defects of the tree (triggers avoided by the generator, see dynlib.py / dyninh.py; witnesses
+Former defects of the tree (ALL repaired in /repo; their triggers are generated again, see dynlib.py / dyninh.py; witnesses
 corpus/C07/finding_*.json replayed through the same (P) oracle): D38 (parameter-formula change), D41 / D41b (the derived
 references of a static space that sees no cells are deleted or re-derived: reference deleted in its base, base space
 deleted, remove_bases, add_bases; live copies of the space stay as they were), D39 (deleted foreign base; repaired).
@@ -53,7 +53,7 @@ ASSUMPTIONS = ["formulas are over the generated expression language (ints, names
                "ItemSpaces are requested from outside formulas; reference values are ints; inheritance between static spaces "
                "(cells and references; bases of lower rank only, no cycles) occurs in the inheritance class only, which is "
                "checked differentially (live model vs fresh model of the current definitions), not against Dyn/Model.v",
-               "triggers of the recorded defects D38 D41 D41b (and of C03's D1 D2 D2b) are avoided by the generators "
+               "the recorded defects D38 D41 D41b (and C03's D1 D2 D2b) are repaired in /repo: their triggers are generated "
                "(dynlib.py / dyninh.py doc)"]
 
 CASE_TYPE = "tie_case"
@@ -225,9 +225,8 @@ def run(tier, seed, rng):
                         "operations": dict(dist), "outputs": dict(outs),
                         "precautions_before_unpropagated_edits": precautions,
                         "edits_meeting_live_copies": dict(met)}
-    out.notes.append("generator avoids the trigger of D38 (setparams on a child space / foreign base): %d edits were preceded "
-                     "by clear_items on every parametrised space (D39, D41/D41b and C03-D2 are repaired in /repo and generated)"
-                     % precautions)
+    out.notes.append("no recorded defect is avoided any more: D14 D15 D16 D18 D38 D39 D41/D41b and C03-D1/D2 are repaired in /repo and "
+                     "generated (%d edits preceded by clear_items: 0 unless C07_PRECAUTION=1)" % precautions)
     out.notes.append("inheritance class: %d formula assignments below another definer (the former trigger of C03 D2) generated"
                      % inh_avoided["setformula_below_an_override_generated"])
     return out
